@@ -112,12 +112,14 @@ def main():
         ref = panel.get('R7')
         allf = CC.fusion_cases('R7', 'ENST0A1', 'ENST0B1', 1, E.Cfg(exception=None))
         bps = sorted({f.fusions[0].donor_pos for f in allf})
-        nf = 3 if run.tier == 'quick' else 8
+        nf = 8
         chosen = []
         for k in range(1, nf + 1):
             bp = bps[len(bps) * k // (nf + 1)]
             fz = [f.fusions[0] for f in allf if f.fusions[0].donor_pos == bp]
             chosen.append(fz[(len(fz) * k) // (nf + 1)])
+        if run.tier == 'quick':
+            chosen = [chosen[1], chosen[4], chosen[6]]          # a subset of the thorough tier's fusions
         sets = []
         for f in chosen:
             dtx, atx = f.donor_tx, f.acc_tx
